@@ -26,10 +26,14 @@ Theorem ep_failure_is_atomic fixed (p : ep_params R) (a : alloc) s :
   allocate 2 a = None -> ep_sample fixed p a s = Some ((from_failure, a), s).
 Proof. intros Ha. unfold ep_sample. rewrite Ha. reflexivity. Qed.
 
+(** the clamp of the repaired code is the identity on [-1, 1] *)
+Lemma nclamp_unit_id (x : R) : -1 <= x <= 1 -> nclamp x (- (1)) 1 = x.
+Proof. intros Hx. unfold nclamp. numR. destruct (Rltb_spec x (- (1))); [lra|]. destruct (Rltb_spec 1 x); [lra|reflexivity]. Qed.
+
 Lemma ep_assemble_inv fixed (p : ep_params R) epsil s r s' :
   ep_assemble fixed p epsil s = Some (r, s') ->
   let tau := ep_tau p in
-  let cost := (epsil * (tau + 2) - 1) / (epsil * sqrt (tau * (tau + 2))) in
+  let cost := nclamp ((epsil * (tau + 2) - 1) / (epsil * sqrt (tau * (tau + 2)))) (- (1)) 1 in
   let etot := ep_energy p + 2 * ep_me p in
   exists d0, exiting_direction cost (ep_dir p) s = Some (d0, s') /\
     r = Inter Absorbed 0 vzero
@@ -181,6 +185,7 @@ Proof.
   pose proof (ep_cost_range (ep_me p) (ep_energy p) Hm HE epsil) as Hcos. cbv zeta in Hcos.
   change (ep_energy p / ep_me p) with (ep_tau p) in Hcos. specialize (Hcos Hr).
   apply ep_assemble_inv in E2 as (d0 & Ed & Hres). cbv zeta in Ed.
+  rewrite nclamp_unit_id in Ed by exact Hcos.
   destruct (exiting_direction_spec _ _ _ _ _ Ed Hcos Hd) as (u & _ & Hd0 & Hpol).
   set (etot := ep_energy p + 2 * ep_me p) in *. assert (Het : 0 < etot) by (unfold etot; lra).
   subst r. eexists; eexists. split; [reflexivity|]. cbn [s_pid s_energy s_dir].
@@ -222,6 +227,7 @@ Proof.
   pose proof (ep_cost_range (ep_me p) (ep_energy p) Hm HE epsil) as Hcos. cbv zeta in Hcos.
   change (ep_energy p / ep_me p) with (ep_tau p) in Hcos. specialize (Hcos Hr).
   apply ep_assemble_inv in E2 as (d0 & Ed & Hres). cbv zeta in Ed.
+  rewrite nclamp_unit_id in Ed by exact Hcos.
   destruct (exiting_direction_spec _ _ _ _ _ Ed Hcos Hd) as (u & _ & Hd0 & Hpol). specialize (Hpol Hb).
   set (etot := ep_energy p + 2 * ep_me p) in *. assert (Het : 0 < etot) by (unfold etot; lra).
   subst r. cbn [i_secs] in Hsecs. inversion Hsecs; subst g0 g1. cbn [s_energy s_dir]. cbv zeta.
@@ -271,6 +277,7 @@ Proof.
     - apply div_gt_c; [lra|]. lra.
     - apply div_le_c; [lra|]. nra. }
   assert (Hcos : -1 <= cost <= 1) by lra.
+  rewrite nclamp_unit_id in Ed by exact Hcos.
   destruct (exiting_direction_spec _ _ _ _ _ Ed Hcos Hd) as (u & _ & Hd0 & Hpol). specialize (Hpol ltac:(right; cbn; lra)).
   rewrite dot_R in Hpol. cbn [ep_dir p vx vy vz] in Hpol.
   assert (Hz0 : vz d0 = cost) by lra.
